@@ -48,7 +48,7 @@ P2_LINE = 2000
 
 
 def quick_runs(prop):
-    return 3000
+    return 5000
 
 
 # ---------------------------------------------------------------------------
